@@ -239,11 +239,11 @@ def run_case(sh, s, tier, d, case, only=None, prebuilt=None):
                     wpath = None
                 size_before = tgt.getSize()
                 sh.count('packs')
+                fired = []
                 try:
                     if mid:
                         from ZODB.FileStorage import fspack
                         orig_phase1 = fspack.FileStoragePacker.copyToPacktime
-                        fired = []
 
                         def phase1(self_):
                             r_ = orig_phase1(self_)
@@ -260,6 +260,8 @@ def run_case(sh, s, tier, d, case, only=None, prebuilt=None):
                     else:
                         tgt.pack(ptime, referencesf)
                 except Exception as e:
+                    if mid and not fired:
+                        commit_M(tgt)               # the pack refused before its first phase: the commit simply follows
                     dangling = has_dangling(before)
                     after = {p: view(tgt, p, strong_refs) for p in before}
                     unchanged = after == before
